@@ -99,6 +99,14 @@ func checkC03(c *Ctx) {
 				sc.parties[0] = c.freshParty("x25519")
 			}
 		}
+		if i%5 == 1 && len(sc.parties) < 5 && sc.parties[0].kind != "scrypt" {
+			// a foreign stanza with MANY arguments (plugins and third parties may write such): all of them are under the MAC
+			var args []string
+			for k := 0; k < 7+c.rng.intn(5); k++ {
+				args = append(args, fmt.Sprintf("a%d", k))
+			}
+			sc.parties = append(sc.parties, stubParty([]*age.Stanza{{Type: "many-args", Args: args, Body: c.rng.bytes(20)}}, nil, false, false))
+		}
 		file, err, _, _ := encryptImpl(sc)
 		if err != nil {
 			panic(err)
@@ -115,8 +123,8 @@ func checkC03(c *Ctx) {
 		}
 		// (a) every single-bit flip of the header bytes
 		stride := 1
-		if hdrLen > 700 && !c.thorough() {
-			stride = 3 // RSA bodies: every third bit in the quick tier
+		if hdrLen > 330 && !c.thorough() {
+			stride = 3 // larger headers (several recipients, RSA bodies): every third bit in the quick tier
 		}
 		for bit := 0; bit < 8*hdrLen; bit += stride {
 			t := append([]byte{}, file...)
@@ -129,7 +137,10 @@ func checkC03(c *Ctx) {
 		// (a2) byte insertions and deletions at every header position (small headers)
 		if hdrLen <= 500 || c.thorough() {
 			for pos := 0; pos < hdrLen; pos++ {
-				for _, ins := range []byte{'\r', ' ', '\n', 'A', '=', '-'} {
+				for _, ins := range []byte{'\r', ' ', '\n', 'A', '=', '-', '0', '1', '+', '\t'} {
+					if (ins == '0' || ins == '1' || ins == '+' || ins == '\t') && pos > 24 && !c.thorough() {
+						continue // digits and signs: in the version line only (quick tier)
+					}
 					t := append(append(append([]byte{}, file[:pos]...), ins), file[pos:]...)
 					if bytes.HasPrefix(t, file[:hdrLen]) {
 						continue // the header bytes are unchanged: this edit only shifts the payload
@@ -195,6 +206,22 @@ func checkC03(c *Ctx) {
 				g := (*format.Stanza)(greaseStanza(c.rng))
 				h.Recipients = append(h.Recipients[:pos], append([]*format.Stanza{g}, h.Recipients[pos:]...)...)
 			})
+		}
+		// arguments appended to, dropped from and altered in every stanza (also beyond the first few)
+		for si := range h.Recipients {
+			si := si
+			if len(h.Recipients[si].Args) < 5 && !(si == 0 && i%4 == 0) && !c.thorough() {
+				continue
+			}
+			edit("arg-appended", func(h *format.Header) { h.Recipients[si].Args = append(h.Recipients[si].Args, "extra") })
+			if n := len(h.Recipients[si].Args); n > 0 {
+				edit("last-arg-dropped", func(h *format.Header) { h.Recipients[si].Args = h.Recipients[si].Args[:n-1] })
+				edit("last-arg-altered", func(h *format.Header) {
+					a := append([]string{}, h.Recipients[si].Args...)
+					a[n-1] = a[n-1] + "x"
+					h.Recipients[si].Args = a
+				})
+			}
 		}
 		// stanzas whose type merely LOOKS special (grease-like, suffixes / prefixes of real types)
 		for _, ty := range []string{"grease", "x-grease", "grease-x", "X25519-grease", "scrypt-grease", "stub", "X25519x", "ssh-", "age"} {
